@@ -4,6 +4,7 @@
 #include "bitboard.h"
 #include "move_bitboards.h"
 #include "types.h"
+#include "verif_hooks.h"
 #include "zobrist_hash.h"
 
 #include <bits/stdint-uintn.h>
@@ -124,7 +125,20 @@ class Position
 
     int32_t _history_counter;
     uint64_t _history[MAX_PLIES];
+
+    VERIF_FRIENDS
 };
+
+#ifdef CHESSPP_VERIF
+namespace verif
+{
+struct PeekPosition
+{
+    static int history_size(const Position& p) { return p._history_counter; }
+    static uint64_t history_at(const Position& p, int i) { return p._history[i]; }
+};
+}  // namespace verif
+#endif
 
 std::ostream& operator<<(std::ostream& stream, const Position& position);
 
